@@ -660,6 +660,19 @@ class C13(core.Property):
             else:
                 w = {"jsonrpc": J, "id": ti, "result": self._rjson(rng, rng.choice([0, 1, 2, 3]), top=True)}
             add(w, sends)
+        # replies to requests whose result type admits null, in every member shape a JSON-RPC peer may put
+        # on the wire: explicit null / result member left out, members in another order, a member JSON-RPC
+        # does not name next to them; the methods come from the regenerated registry, ids rotate
+        nm = self._null_result_methods()
+        RID = [1, "a", 0, "", "0", 2 ** 53, "uuid-4", 7]
+        per = max(1, chk.n(360, 3000) // max(1, len(nm) * len(self.NULL_SHAPES)))
+        for k, meth in enumerate(nm):
+            for r in range(per):
+                for sn, shape in enumerate(self.NULL_SHAPES):
+                    idv = RID[(chk.seed + k + sn + 3 * r) % len(RID)]
+                    vals = {"jsonrpc": J, "id": idv, "result": None, "x-extra": [1, "s", None, {"a": 1}][(k + r) % 4]}
+                    others = [("y/sent", "other-9")] if (k + sn + r) % 3 == 0 else []
+                    add({m_: vals[m_] for m_ in shape}, [(meth, idv)] + others, shape="/".join(shape))
         # unknown methods: random generic payloads
         for _ in range(chk.n(4000, 25000)):
             w = {"jsonrpc": J, "method": rng.choice(["x/unknown", "y/other", "textDocument/notInRegistry"])}
@@ -721,6 +734,27 @@ class C13(core.Property):
             for meth, params in (("x/unknown", {"a": 1}), ("textDocument/hover", pos)):
                 add({"jsonrpc": J, "id": own[1], "method": meth, "params": params}, [own], malformed=True)
         return out
+
+    NULL_SHAPES = [("jsonrpc", "id", "result"), ("jsonrpc", "id"), ("id", "jsonrpc"), ("result", "id", "jsonrpc"),
+                   ("id", "result", "jsonrpc"), ("jsonrpc", "id", "result", "x-extra"), ("jsonrpc", "id", "x-extra"),
+                   ("x-extra", "id", "jsonrpc")]
+
+    def _result_admits_null(self, method):
+        import attrs
+        t = self._types()
+        try:
+            e = t.METHOD_TO_TYPES.get(method)
+        except TypeError:
+            return False
+        if e is None or e[1] is None:
+            return False
+        rt = {f.name: f.type for f in attrs.fields(e[1])}.get("result")
+        return any(v is None for v in falsy_values(rt))
+
+    def _null_result_methods(self):
+        """request methods of the regenerated registry whose result type admits null"""
+        self._ensure_tables()
+        return [r["name"] for r in self.reg if r["request"] and self._result_admits_null(r["name"])]
 
     # ---- streams: several typed messages in one byte stream, a failing frame at every position ----
     BAD = ("invalid-params", "unknown-response-id", "undecodable", "extra-member", "version-1.0", "invalid-request-params")
@@ -1479,7 +1513,11 @@ class C13(core.Property):
             basic = (kind is not None and w.get("jsonrpc") == "2.0" and idok and not clash
                      and (not hm or isinstance(w["method"], str))
                      and (kind in (0, 1) or outstanding))
-            if basic and not (set(w) <= allowed[kind] and (kind != 2 or "result" in w)):
+            # a reply whose result is null or left out, to a request whose result type admits null, is a
+            # null result whatever else the object carries: judged exactly (the converter alone on this JSON)
+            null_reply = (kind == 2 and basic and w.get("result") is None and not nested
+                          and self._result_admits_null(outstanding[0]))
+            if basic and not null_reply and not (set(w) <= allowed[kind] and (kind != 2 or "result" in w)):
                 # members beyond the ones JSON-RPC names (or a response without result): only the
                 # classification itself is judged - a request is answered (result or error) under its
                 # id, nothing else is ever answered
@@ -1662,7 +1700,9 @@ class C13(core.Property):
                 if c.get("pre"): d["trip/receiver-history:" + ",".join(c["pre"])] += 1
             elif c["k"] == "btrip": d["builtin-on/" + c["method"]] += 1
             elif c["k"] == "stream": d["stream/" + next(f[1] for f in c["frames"] if f[0] == "bad")] += 1
-            elif c["k"] == "recv": d["recv/" + (c.get("klass") or ("malformed" if c.get("malformed") else "stream"))] += 1
+            elif c["k"] == "recv":
+                d["recv/" + (c.get("klass") or ("malformed" if c.get("malformed") else "stream"))] += 1
+                if c.get("shape"): d["recv/null-reply:" + c["shape"]] += 1
             else: d["d2o"] += 1
         return dict(d)
 
